@@ -129,6 +129,14 @@ func PinAlphabet() []PinVariant {
 			p.UserAllocations = []peer.ID{PID(1)}
 			return p
 		}},
+		{"expires-in-5s", func(c cid.Cid) *api.Pin {
+			// relative to the (fake) clock at construction: lets a history
+			// apply or replay the entry after its expiry instant
+			p := api.PinCid(c)
+			p.ReplicationFactorMin, p.ReplicationFactorMax = -1, -1
+			p.ExpireAt = time.Unix(time.Now().Unix()+5, 0)
+			return p
+		}},
 		{"alloc1-ascii", func(c cid.Cid) *api.Pin {
 			p := api.PinCid(c)
 			p.ReplicationFactorMin, p.ReplicationFactorMax = 1, 1
